@@ -19,13 +19,17 @@
    of coq/C07, imported read-only; composition with C07.Agree.agree_partial) on the class named
    Proofs5.kw_type: void and the keyword primitives _Bool ... long double, pointers, arrays with a length,
    in any nesting (exactly the part of C07's sub-grammar that ct_name can print; qualifiers never appear in
-   a ct_name).  MISSING: function types, *_t / typedef / struct / union / enum names, open arrays, the
-   Python-side parser (C07_agree_partial relates it to the C side on the same class), and getctype(T, x) with a
-   non-empty x.  Those are decided by the correspondence runs (both FFIs, gcc). *)
+   a ct_name).  SECOND SENTENCE (getctype(T, x) names the type x builds over T): C08_getctype_suffix_is_name — for EVERY
+   T, ffi_getctype(T, "*"), (T, "[n]"), (T, "[]") and (T, "(*)(args)") return exactly ct_name of the backend's
+   pointer-to-T / T[n] / T[] / function-pointer-returning-T type (with the parentheses an array T needs);
+   C08_typeof_getctype_suffix composes the first two with the re-parsing theorem: typeof(getctype(T, "*")) = T* and
+   typeof(getctype(T, "[n]")) = T[n] on the kw_type class (C side).  MISSING: function types, *_t / typedef / struct / union / enum names, open arrays, the
+   Python-side parser (C07_agree_partial relates it to the C side on the same class), and getctype(T, x) for
+   other x (identifiers, composite declarators such as "*[3]" or "(*)[3]").  Those are decided by the correspondence runs (both FFIs, gcc). *)
 From Coq Require Import List Arith NArith ZArith Lia Bool String.
 Import ListNotations.
 From Cffi Require Import C07.Model C07.Realize C08.Gen C08.Model C08.Proofs C08.Spec C08.Proofs2 C08.Proofs3 C08.Proofs4.
-From Cffi Require C07.PyModel C07.Tables C07.Sequel C07.Sequel2 C07.Agree C08.Proofs5.
+From Cffi Require C07.PyModel C07.Tables C07.Sequel C07.Sequel2 C07.Agree C08.Proofs5 C08.Proofs6.
 
 (* ct_name_position never points outside the name *)
 Theorem C08_position_in_range : forall T, (snd (cname T) <= List.length (fst (cname T)))%nat.
@@ -139,6 +143,48 @@ Print Assumptions C08_typeof_getctype_keyword_types.
 Theorem C08_reparse_class : forall T, Proofs5.kw_type T = true -> exists p s, Proofs5.syn T = Some (p, s).
 Proof. exact Proofs5.syn_total. Qed.
 Print Assumptions C08_reparse_class.
+
+(* the property's second sentence for the one-step declarator texts, ALL T: getctype(T, x) is ct_name of the type the
+   backend builds by applying x's constructor to T (new_pointer_type / new_array_type / fb_build_name) *)
+Theorem C08_getctype_suffix_is_name : forall T,
+  getctype_c T (s2l "*") = fst (cname (CPtr T)) /\
+  (forall n, getctype_c T ([c_lbr] ++ decimal n ++ [c_rbr]) = fst (cname (CArr T (Some n)))) /\
+  getctype_c T (s2l "[]") = fst (cname (CArr T None)) /\
+  (forall args ell, getctype_c T (Proofs6.func_suffix args ell) = fst (cname (CFunc T args ell))).
+Proof. exact Proofs6.getctype_suffix_is_name. Qed.
+Print Assumptions C08_getctype_suffix_is_name.
+
+(* ... and typeof of that text is the pointer / array type, on the re-parsing class (C-side parser); hypotheses as in
+   C08_reparse_keyword_types, for the result type *)
+Theorem C08_typeof_getctype_suffix : forall (g : genv) (osz : nat) T,
+  Tables.table_ok (map fst (g_globals g)) ->
+  (forall p s, Proofs5.syn (CPtr T) = Some (p, s) -> build (Proofs5.mty_of (CPtr T)) = Some (RT (CPtr T)) ->
+     (S (Sequel.nops (Proofs5.to_decl s)) <= osz)%nat -> (Sequel2.cost (Proofs5.to_decl s) < 999)%nat ->
+     c_typeof osz g (getctype_c T (s2l "*")) = Some (CPtr T)) /\
+  (forall n p s, Proofs5.syn (CArr T (Some n)) = Some (p, s) ->
+     build (Proofs5.mty_of (CArr T (Some n))) = Some (RT (CArr T (Some n))) ->
+     (S (Sequel.nops (Proofs5.to_decl s)) <= osz)%nat -> (Sequel2.cost (Proofs5.to_decl s) < 999)%nat ->
+     c_typeof osz g (getctype_c T ([c_lbr] ++ decimal n ++ [c_rbr])) = Some (CArr T (Some n))).
+Proof. exact Proofs6.typeof_getctype_suffix. Qed.
+Print Assumptions C08_typeof_getctype_suffix.
+
+(* non-vacuity: T = int[3]; "*" needs the parentheses; the hypotheses for "int(*)[3]" and "int[7][3]" hold *)
+Example C08_example_suffix :
+  let T := CArr (CPrim 7) (Some 3%Z) in
+  let g := mkGenv [] [] [] [] in
+  getctype_c T (s2l "*") = s2l "int(*)[3]" /\
+  getctype_c T (s2l "[7]") = s2l "int[7][3]" /\ decimal 7 = s2l "7" /\
+  getctype_c (CPrim 7) (Proofs6.func_suffix [CPrim 2; CPtr CVoid] true) = s2l "int(*)(char, void *, ...)" /\
+  (exists p s, Proofs5.syn (CPtr T) = Some (p, s) /\ build (Proofs5.mty_of (CPtr T)) = Some (RT (CPtr T)) /\
+               (S (Sequel.nops (Proofs5.to_decl s)) <= 100)%nat /\ (Sequel2.cost (Proofs5.to_decl s) < 999)%nat) /\
+  c_typeof 100 g (getctype_c T (s2l "*")) = Some (CPtr T) /\
+  c_typeof 100 g (getctype_c T (s2l "[7]")) = Some (CArr T (Some 7%Z)).
+Proof.
+  cbv zeta. split; [vm_compute; reflexivity|]. split; [vm_compute; reflexivity|]. split; [vm_compute; reflexivity|].
+  split; [vm_compute; reflexivity|]. split.
+  - eexists _, _. split; [vm_compute; reflexivity|]. split; [vm_compute; reflexivity|]. split; vm_compute; lia.
+  - split; vm_compute; reflexivity.
+Qed.
 
 (* non-vacuity of the re-parsing theorem: array of 16 pointers to arrays of 3 pointers to unsigned long,
    empty declaration context *)
